@@ -4,6 +4,7 @@ EXTENDS Server, Json
 
 AllProtos  == {"h1", "h2", "auto"}
 H1Only     == {"h1"}
+H1Auto     == {"h1", "auto"}
 BothBool   == BOOLEAN
 OnlyFalse  == {FALSE}
 OnlyTrue   == {TRUE}
